@@ -1,6 +1,7 @@
 package rules
 
 import (
+	"fmt"
 	"go/token"
 	"strings"
 
@@ -100,5 +101,78 @@ func ruleClientTimeout(r *core.Reporter) {
 		} else {
 			r.Held(key, 1, "with HTTPTimeout > 0 every path from the creation of %s to the return sets its Timeout from config.HTTPTimeout", field)
 		}
+	}
+}
+
+func init() {
+	register(&core.Rule{ID: "R-SLEEP-BOUNDED", Props: []string{"C03", "C10"}, Doc: "every time.Sleep in the fetch goroutine of archiver.archive (the retry back-off; archiver.Stop waits for that goroutine and nothing in it watches the stop context) sleeps for a duration computed from constants, the retry counter and configuration only: the backward slice of the argument contains no value derived from the *http.Response or its headers — a server-chosen Retry-After turns a stop into a wait of the server's choosing, with the WARC files left .open meanwhile", Run: ruleSleepBounded})
+}
+
+func ruleSleepBounded(r *core.Reporter) {
+	p := r.P
+	fn, _ := fetchClosure(p)
+	if fn == nil {
+		r.Undecided("archiver/fetch-closure", "", "not found")
+		return
+	}
+	r.Analysed(fn)
+	n := 0
+	for _, f := range withAnon(fn) {
+		allInstrs(f, func(in ssa.Instruction) {
+			c, ok := in.(*ssa.Call)
+			if !ok || !ir.IsCallTo(c, "time.Sleep") || len(c.Call.Args) != 1 {
+				return
+			}
+			n++
+			key := fmt.Sprintf("%s/sleep#%d", core.FuncName(f), n)
+			seen := map[ssa.Value]bool{}
+			var from ssa.Value
+			var walk func(v ssa.Value, d int)
+			walk = func(v ssa.Value, d int) {
+				if v == nil || seen[v] || d > 14 || from != nil {
+					return
+				}
+				seen[v] = true
+				tn := ir.TypeName(v.Type())
+				if tn == "net/http.Response" || tn == "net/http.Header" {
+					from = v
+					return
+				}
+				if fa, isFA := v.(*ssa.FieldAddr); isFA {
+					if t, _, okf := ir.FieldOf(fa); okf && t == "net/http.Response" {
+						from = v
+						return
+					}
+				}
+				var ops []*ssa.Value
+				if instr, isI := v.(ssa.Instruction); isI {
+					ops = instr.Operands(nil)
+				}
+				for _, op := range ops {
+					if op != nil && *op != nil {
+						walk(*op, d+1)
+					}
+				}
+				// a spilled local: what was stored to the cell
+				if u, isU := v.(*ssa.UnOp); isU && u.Op == token.MUL {
+					if a, isA := u.X.(*ssa.Alloc); isA {
+						for _, rr := range ir.Referrers(a) {
+							if st, isSt := rr.(*ssa.Store); isSt && st.Addr == ssa.Value(a) {
+								walk(st.Val, d+1)
+							}
+						}
+					}
+				}
+			}
+			walk(c.Call.Args[0], 0)
+			if from != nil {
+				r.Violated(key, p.InstrPos(in), "the sleep duration depends on the response (%s): the server decides how long the fetch goroutine — which archiver.Stop waits for and which does not watch the stop context — stays asleep", ir.Path(from))
+			} else {
+				r.Held(key, 1, "sleep duration independent of the response")
+			}
+		})
+	}
+	if n == 0 {
+		r.Held("archive/no-sleep", 0, "the fetch goroutine does not sleep")
 	}
 }
